@@ -152,6 +152,7 @@ def eval_vdiff(triples, tier, rng):
     return {'failures': fails[:50], 'nontrivial': len(nontrivial), 'distribution': dist, 'certs': certs}
 
 import fam_sets as FS
+import fam_sat as FT
 
 # ================================================================== registry
 PROPERTIES = {
@@ -161,6 +162,18 @@ PROPERTIES = {
                 'non-trivial = distinct pairs with equal major.minor.patch (the comparison is decided by the prerelease identifiers) and distinct lists of 3+ versions',
         'explanation': 'theorems: vcmp is a total preorder, == iff Equal iff the four compared fields coincide iff equal hash keys, build ignored, '
                        'vcmp = Lt iff the inductive SemVer-11 relation, stable sort / max / min consistent with it',
+    },
+    'C03': {
+        'families': [{'name': 'sat-gate', 'gen': FT.gen_gate, 'eval': FT.eval_gate}],
+        'rule': 'sat family: every single comparator over a small partial universe, random comparator sets / hyphen ranges / multi-alternative ranges, each on the version universe induced by its numbers and tags; '
+                'non-trivial = distinct range texts for which some probed prerelease version lies within the bounds (so the gate decides the answer)',
+        'explanation': 'theorems: for a prerelease v, satisfies = exists an alternative containing v whose lower or upper bound is a prerelease of the same tuple; releases are never gated; build metadata on either side is ignored; '
+                       'a generated -0 upper bound never opens the gate; the opt-in survives intersection exactly for versions within both operands',
+    },
+    'C14': {
+        'families': [{'name': 'extreme', 'gen': FT.gen_extreme, 'eval': FT.eval_extreme}],
+        'rule': 'random ranges with version lists drawn around their bounds; non-trivial = calls for which at least two list elements satisfy the range',
+        'explanation': 'theorems: the result is an element of the list, satisfies the range and is extreme among satisfying elements; None iff no element satisfies; permutation-invariant up to precedence-equality',
     },
     'C07': {
         'families': [{'name': 'setops-isect', 'gen': FS.gen_setops(['isect']), 'eval': FS.eval_isect}],
